@@ -216,12 +216,12 @@ def ctxExitCore (st : CtxSt) (s : St) (e : Exc) : St × Exc :=
   | _ => (s, e)
 
 def connExit (s : St) (e : Exc) : St × Exc :=
-  let (s', e') := ctxExitCore s.connCtx s e
-  ({ s' with connCtx := .off, connT := none }, e')
+  let r := ctxExitCore s.connCtx s e
+  ({ r.1 with connCtx := .off, connT := none }, r.2)
 
 def sockExit (s : St) (e : Exc) : St × Exc :=
-  let (s', e') := ctxExitCore s.sockCtx s e
-  ({ s' with sockCtx := .off, sockT := none }, e')
+  let r := ctxExitCore s.sockCtx s e
+  ({ r.1 with sockCtx := .off, sockT := none }, r.2)
 
 /-! ## read timeout, pause / resume -/
 
@@ -303,16 +303,20 @@ def createConn (cfg : Cfg) (s : St) : St :=
     | .running _ => { s with dnsWaitR := true, pc := .dnsWaiter, wake := none }
     | .none => { s with lookup := .running .R, dnsCalls := s.dnsCalls + 1, pc := .dnsOwner, wake := none }
 
-/-- `ClientSession._request` up to the first suspension -/
-def startR (cfg : Cfg) (s : St) : St :=
-  if s.pc ≠ .idle then s else
+/-- `TimeoutHandle.start()` and entering `ceil_timeout(connect)` -/
+def armStart (cfg : Cfg) (s : St) : St :=
   let s := match cfg.effTotal with
     | some d => if d = 0 then s else { s with totalT := some (totalDeadline s.now d, s.seq), seq := s.seq + 1 }
     | none => s
-  let s := match cfg.connect with
+  match cfg.connect with
     | some d => if d = 0 then { s with connCtx := .entered }
                 else { s with connCtx := .entered, connT := some (ctxDeadline s.now d, s.seq), seq := s.seq + 1 }
     | none => { s with connCtx := .entered }
+
+/-- `ClientSession._request` up to the first suspension -/
+def startR (cfg : Cfg) (s : St) : St :=
+  if s.pc ≠ .idle then s else
+  let s := armStart cfg s
   if !slotFree cfg s then { s with pc := .poolWait, poolQ := s.poolQ ++ [.R], wake := none }
   else createConn cfg s
 
@@ -339,54 +343,42 @@ def afterHeaders (cfg : Cfg) (s : St) : St × Option Exc :=
 
 /-- connection established: leave both timeout contexts, take the slot, send the request, enter `start` -/
 def afterConnect (cfg : Cfg) (s : St) : St :=
-  let (s, _) := sockExit s .timeout
-  let (s, _) := connExit s .timeout
+  let s := (sockExit s .timeout).1
+  let s := (connExit s .timeout).1
   let s := { s with tr := .open, slot := .proto }
   let s := if cfg.wstall then { s with wr := .parked } else reschedRead cfg s
   { s with pc := .headers, wake := none }
 
 /-! ## exception paths -/
 
+/-- common tail of the connect phase: leave `ceil_timeout(connect)`,
+`except asyncio.TimeoutError → ConnectionTimeoutError`, leave `with timer`, `_request`'s cleanup -/
+def connPhaseExit (s : St) (e : Exc) : St :=
+  let r := connExit s e
+  let e := if r.2 = .timeout then Exc.connTimeout else r.2
+  let r2 := tcExit r.1 e
+  finish r2.1 r2.2.outcome
+
 /-- cleanup + conversion performed while exception `e` travels from the await at `s.pc` to the
-caller.  Returns the state and `none` when the exception was absorbed (next connect attempt). -/
+caller (or is absorbed by the next connect attempt). -/
 def throwAt (cfg : Cfg) (s : St) (e : Exc) : St :=
   match s.pc with
-  | .poolWait =>
-    let s := { s with poolQ := s.poolQ.filter (· ≠ .R) }
-    let (s, e) := connExit s e
-    let e := if e = .timeout then .connTimeout else e
-    let (s, e) := tcExit s e
-    finish s e.outcome
-  | .dnsOwner | .dnsWaiter =>
-    let s := { s with dnsWaitR := false }
-    let s := releasePlaceholder cfg s
-    let (s, e) := connExit s e
-    let e := if e = .timeout then .connTimeout else e
-    let (s, e) := tcExit s e
-    finish s e.outcome
+  | .poolWait => connPhaseExit { s with poolQ := s.poolQ.filter (· ≠ .R) } e
+  | .dnsOwner | .dnsWaiter => connPhaseExit (releasePlaceholder cfg { s with dnsWaitR := false }) e
   | .connecting =>
-    let s := { s with closedSocks := s.closedSocks + 1 }
-    let (s, e) := sockExit s e
-    if e = .timeout ∧ s.addrsLeft > 1 then
-      attemptConn cfg { s with addrsLeft := s.addrsLeft - 1, attempt := s.attempt + 1 }
-    else
-      let s := releasePlaceholder cfg s
-      let (s, e) := connExit s e
-      let e := if e = .timeout then .connTimeout else e
-      let (s, e) := tcExit s e
-      finish s e.outcome
+    let r := sockExit { s with closedSocks := s.closedSocks + 1 } e
+    if r.2 = .timeout ∧ r.1.addrsLeft > 1 then
+      attemptConn cfg { r.1 with addrsLeft := r.1.addrsLeft - 1, attempt := r.1.attempt + 1 }
+    else connPhaseExit (releasePlaceholder cfg r.1) r.2
   | .headers =>
-    let (s, e) := tcExit s e          -- `with self._timer` in ClientResponse.start
-    let s := closeConn cfg s          -- resp.close(); conn.close()
-    let (s, e) := tcExit s e          -- `with timer` in ClientSession._request
-    finish s e.outcome
+    let r := tcExit s e                 -- `with self._timer` in ClientResponse.start
+    let s := closeConn cfg r.1          -- resp.close(); conn.close()
+    let r2 := tcExit s r.2              -- `with timer` in ClientSession._request
+    finish r2.1 r2.2.outcome
   | .body =>
-    let (s, e) := tcExit s e          -- `with self._timer` in StreamReader._wait
-    let s := closeConn cfg s          -- ClientResponse.read: except BaseException: self.close()
-    finish s e.outcome
-  | .think =>
-    let s := releaseConn cfg s        -- `async with` exit: release()
-    finish s e.outcome
+    let r := tcExit s e                 -- `with self._timer` in StreamReader._wait
+    finish (closeConn cfg r.1) r.2.outcome   -- ClientResponse.read: except BaseException: self.close()
+  | .think => finish (releaseConn cfg s) e.outcome   -- `async with` exit: release()
   | _ => s
 
 /-- resume the task of R if something is pending (a requested cancellation wins) -/
@@ -406,7 +398,6 @@ def resumeR (cfg : Cfg) (s : St) : St :=
       attemptConn cfg { s with dnsWaitR := false, addrsLeft := cfg.naddr, attempt := 0 }
     | .connecting => afterConnect cfg s
     | .headers =>
-      let (s, _) := tcExit s .timeout
       match afterHeaders cfg s with
       | (s, none) => s
       | (s, some e) => throwAt cfg { s with pc := .body } e
